@@ -108,7 +108,9 @@ class Overlay:
                            release build users run (debug_assert! and cfg!(debug_assertions) compiled out)
     """
 
-    def __init__(self, kind, scratch, modules=None):
+    def __init__(self, kind, scratch, modules=None, hfile=None):
+        # hfile: an alternative harness file (under /verif/harness) for the single module of this overlay
+        self.hfile = hfile
         # modules: rust module paths whose harness files are needed (None = all). Injecting only what the selected
         # queries use keeps a change in an unrelated module from breaking the compilation of these harnesses.
         if modules is not None:
@@ -118,7 +120,7 @@ class Overlay:
                     modules |= set(deps)
         self.modules = modules
         self.kind = kind
-        self.dir = os.path.join(scratch, "ov-" + re.sub(r"[^a-z0-9]+", "-", kind))
+        self.dir = os.path.join(scratch, "ov-" + re.sub(r"[^a-z0-9]+", "-", kind) + ("-" + re.sub(r"[^a-z0-9]+", "-", "_".join(sorted(modules))) if modules else "") + ("-" + re.sub(r"[^a-z0-9]+", "-", hfile) if hfile else ""))
         self.injected = []
         self.models = []
         self._build()
@@ -133,7 +135,7 @@ class Overlay:
         for mod, h in INJECT.items():
             if self.modules is not None and mod_to_path(mod) not in self.modules:
                 continue
-            hp = os.path.join(ROOT, "harness", h)
+            hp = os.path.join(ROOT, "harness", self.hfile if (self.hfile and self.modules and len(self.modules) == 1) else h)
             mp = os.path.join(self.dir, mod)
             if os.path.exists(hp) and os.path.exists(mp):
                 with open(mp, "a") as f:
@@ -228,7 +230,8 @@ def parse_kani_log(text):
 class Harness:
     def __init__(self, name, module, overlay="e1", desc="", bounds="", functions=(), covers=(),
                  flags=(), timeout=600, mem_gb=16, tier="quick", props=(), assumptions=(),
-                 replay="playback", known=None, crate="lib", thorough_props=(), best_effort=False, fn=None):
+                 replay="playback", known=None, crate="lib", thorough_props=(), best_effort=False, fn=None, hfile=None):
+        self.hfile = hfile          # harness file other than the module's default one (own overlay)
         self.name = name            # registry name (= function name of the #[kani::proof] unless fn is given)
         self.fn = fn or name        # function name of the #[kani::proof]
         self.module = module        # rust module path that contains `verif_kani` (e.g. "msgpack")
@@ -449,6 +452,8 @@ def mod_to_path(modfile):
 
 
 def harness_file_for(h):
+    if getattr(h, "hfile", None):
+        return os.path.join(ROOT, "harness", h.hfile)
     for mod, hf in INJECT.items():
         if mod_to_path(mod) == h.module:
             if h.overlay.startswith("dep:"):
